@@ -174,7 +174,9 @@ ALL = ["C%02d" % i for i in range(1, 21)]
 # Third session (DESIGN section 13): what was added to the checks. text: appended to the claim; note: (old, new) replacements
 # in the note, or a string appended to it; technique: replaces the technique.
 ADDENDA = {
-    "C01": dict(text=" The scripted targets also send atomic containers and the replace idiom; library and CLI queries carry overlapping subscription paths."),
+    "C01": dict(text=" Pipeline.tla also has mixed notifications (one update and one delete in a message, the update possibly refused as a re-assertion) with two more mutants (the delete dropped; deletes skipped after a "
+                     "refused update). The scripted targets also send atomic containers, the replace idiom and the resync idiom (a stale re-assertion bundled with a delete); library and CLI queries carry "
+                     "overlapping subscription paths, and a sub-tree is handed to gnmi_cli as a query flag with list keys in brackets (key values containing the delimiter)."),
     "C04": dict(text=" Further profiles: 'idle' (send timeout 1.5 s, silences of 2 s between the phases: an idle subscriber is not a stalled one), 'stall' (backlogs behind a slow subscriber), "
                      "removed targets that come back, and a held-back removal aimed at the registration window of a starting stream (hook stream.register)."),
     "C05": dict(text=" An 'idle' profile adds POLL/STREAM subscribers that stay silent for longer than the send timeout between triggers."),
